@@ -1,6 +1,32 @@
 (* Extraction of the executable model and spec to OCaml (ExtrOcamlBasic only:
-   bool, option, unit, list, prod, sumbool, sumor map to OCaml's; N/positive/nat stay Coq data). *)
+   bool, option, unit, list, prod, sumbool, sumor map to OCaml's; N/positive/nat stay Coq data).
+   ONE Separate Extraction command listing every module (a second one would overwrite shared modules). *)
 From Coq Require Import Extraction ExtrOcamlBasic.
-From FatVerif Require Import Model.Base Model.Time Model.Str Model.Slot Model.Table Model.Fat Spec.Image Spec.Abs Spec.Wf Spec.Regions Spec.Tree.
+From FatVerif Require Import
+  Model.Base
+  Model.Time
+  Model.Str
+  Model.Slot
+  Model.Table
+  Model.Fat
+  Model.Lfn
+  Spec.Image
+  Spec.Abs
+  Spec.Wf
+  Spec.Regions
+  Spec.Tree
+  Spec.LfnSpec.
 Separate Extraction
-  Model.Base Model.Time Model.Str Model.Slot Model.Table Model.Fat Spec.Image Spec.Abs Spec.Wf Spec.Regions Spec.Tree.
+  Model.Base
+  Model.Time
+  Model.Str
+  Model.Slot
+  Model.Table
+  Model.Fat
+  Model.Lfn
+  Spec.Image
+  Spec.Abs
+  Spec.Wf
+  Spec.Regions
+  Spec.Tree
+  Spec.LfnSpec.
